@@ -25,7 +25,9 @@ contract("Change.undo", abstract=True, params={"self": "Change", "job_set": "Bas
          ensures=["tree == unapply(self, old(tree))", "faults == old(faults)"], raises=LEAF_EXC)
 contract("change.create_job_set", abstract=True, params={"task_handle": "BaseTaskHandle", "change": "Change"}, returns="BaseJobSet",
          note="creates a job set and informs observers; no effect on tree or history (rope.base.change.create_job_set -> TaskHandle.create_jobset)")
-contract("History._is_change_interesting", abstract=True, pure=True, params={"self": "History", "changes": "Change"}, returns="Bool")
+specfun("interesting", ["History", "Change"], "Bool", note="the change touches at least one resource that is not ignored")
+contract("History._is_change_interesting", abstract=True, pure=True, params={"self": "History", "changes": "Change"}, returns="Bool",
+         ensures=["result == interesting(self, changes)"])
 contract("History.max_undos", abstract=True, is_property=True, pure=True, params={"self": "History"}, returns="Int",
          note="configured limit (prefs lookup)")
 specfun("max_undos_of", ["History"], "Int")
@@ -42,7 +44,10 @@ contract("History.do", source=M + "History.do", params={"self": "History", "chan
          modifies=["tree", "faults", "self._undo_list", "self._redo_list", "self.current_change"],
          ensures=["len(self._redo_list) == 0", "is_none(self.current_change)", "tree == apply(changes, old(tree))",
                   "len(self._undo_list) <= max(max_undos_of(self), 0) or len(self._undo_list) == len(old(self._undo_list))",
-                  "forall(lambda k: implies(0 <= k and k < len(self._undo_list), self._undo_list[k] == (old(self._undo_list) + [changes])[k + (len(old(self._undo_list)) + 1 - len(self._undo_list))] or self._undo_list == old(self._undo_list)))"],
+                  "forall(lambda k: implies(0 <= k and k < len(self._undo_list), self._undo_list[k] == (old(self._undo_list) + [changes])[k + (len(old(self._undo_list)) + 1 - len(self._undo_list))] or self._undo_list == old(self._undo_list)))",
+                  # an uninteresting change (ignored files only) is performed but not recorded; an interesting one is recorded last (if anything is kept)
+                  "implies(not interesting(self, changes), self._undo_list == old(self._undo_list))",
+                  "implies(interesting(self, changes) and max_undos_of(self) >= 1, len(self._undo_list) >= 1 and self._undo_list[len(self._undo_list) - 1] == changes)"],
          raises={"Exception": {"ensures": ["tree == old(tree)", "self._undo_list == old(self._undo_list)", "self._redo_list == old(self._redo_list)",
                                            "is_none(self.current_change)"]}})
 
@@ -92,7 +97,8 @@ contract("History.undo", source=M + "History.undo", defaults={"change": "None", 
                   "tree == unapply(old(self._undo_list)[len(old(self._undo_list)) - 1], old(tree))"],
          raises={"HistoryError": {"when": "len(self._undo_list) == 0",
                                   "ensures": ["tree == old(tree)", "self._undo_list == old(self._undo_list)", "self._redo_list == old(self._redo_list)"]},
-                 "Exception": {"ensures": ["tree == old(tree)", "self._undo_list == old(self._undo_list)", "self._redo_list == old(self._redo_list)"]}})
+                 "Exception": {"ensures": ["tree == old(tree)", "self._undo_list == old(self._undo_list)", "self._redo_list == old(self._redo_list)",
+                                           "len(old(self._undo_list)) >= 1"]}})
 contract("History.redo", source=M + "History.redo", defaults={"change": "None"},
          params={"self": "History", "change": "Opt[Change]", "task_handle": "BaseTaskHandle"}, returns="Seq[Change]",
          requires=["is_none(change)", "0 <= faults and faults <= 1", "distinct(self._redo_list)"],
@@ -104,7 +110,8 @@ contract("History.redo", source=M + "History.redo", defaults={"change": "None"},
                   "tree == apply(old(self._redo_list)[len(old(self._redo_list)) - 1], old(tree))"],
          raises={"HistoryError": {"when": "len(self._redo_list) == 0",
                                   "ensures": ["tree == old(tree)", "self._undo_list == old(self._undo_list)", "self._redo_list == old(self._redo_list)"]},
-                 "Exception": {"ensures": ["tree == old(tree)", "self._undo_list == old(self._undo_list)", "self._redo_list == old(self._redo_list)"]}})
+                 "Exception": {"ensures": ["tree == old(tree)", "self._undo_list == old(self._undo_list)", "self._redo_list == old(self._redo_list)",
+                                           "len(old(self._redo_list)) >= 1"]}})
 
 # redo o undo = identity on lists and tree, undo o redo likewise: lemmas over the two contracts (not over bodies)
 lemma("redo_after_undo_is_identity",
